@@ -663,7 +663,7 @@ def load_statics():
         src = read("common/frequency_sketch.rs")
     except OSError:
         return
-    for m in re.finditer(r"\bstatic\s+([A-Z_]+)\s*:\s*u64\s*=\s*(0x[0-9A-Fa-f_]+|\d[\d_]*)\s*;", src):
+    for m in re.finditer(r"\b(?:static|const)\s+([A-Z][A-Z_0-9]*)\s*:\s*\w+\s*=\s*(0x[0-9A-Fa-f_]+|\d[\d_]*)\s*;", src):
         txt = m.group(2).replace("_", "")
         STATICS[m.group(1)] = int(txt, 16) if txt.lower().startswith("0x") else int(txt)
 
@@ -851,7 +851,7 @@ SITES = [
      [("size", N), ("count", N)], N, "nat", [("self.size", "size")],
      r"size = (?P<e>[^;]+);"),
     ("SketchArith", "counter_start", "common/frequency_sketch.rs", "increment", 0, "expr",
-     [("hash", N)], N, "nat", [], r"let start = (?P<e>[^;]+) as u8;"),
+     [("hash", N)], N, "nat", [], r"let start = (?P<e>[^;]+?)(?: as u8)?;"),
     ("SketchArith", "age_now", "common/frequency_sketch.rs", "increment", 0, "expr",
      [("size", N), ("sample_size", N)], B, "nat", [("self.size", "size"), ("self.sample_size", "sample_size")],
      r"size \+= 1; if (?P<e>[^{]+?) \{ self\.reset\(\)"),
@@ -903,7 +903,19 @@ def translate_site(site):
         if not m:
             raise Unsupported(f"anchor not found in fn {fn}: {site[10]}")
         ast = P(lex(m.group("e"))).expr()
-        lean = Tr(dialect, {}, src_text).expr(Tr(dialect, {}, src_text).simp(ast))
+        # named intermediates: `let x = e;` statements of the function that precede the site are
+        # transparent (best effort; the site's own parameters are never shadowed)
+        env = {}
+        pnames = {n for n, _ in params}
+        for lm in re.finditer(r"\blet (?:mut )?([a-z_][a-z0-9_]*)(?: ?: ?[^=;]+)? = ([^;{}]+);", text[:m.start("e")]):
+            if lm.group(1) in pnames:
+                continue
+            try:
+                env[lm.group(1)] = P(lex(lm.group(2))).expr()
+            except Unsupported:
+                pass
+        tr = Tr(dialect, env, src_text)
+        lean = tr.expr(tr.simp(ast))
         shown = m.group("e").strip()
     else:
         stmts = P(lex(text)).block()
